@@ -8,6 +8,8 @@ CONSTANTS
   MakeModes <- OnlyFalse
   MaxFaults = 2
   AsBuiltD8 = FALSE
+  SigOnMake <- SigNever
+  Hoisted = FALSE
   GenMode = TRUE
   GenLen = 14
 INVARIANTS GenPrint
